@@ -135,4 +135,23 @@ PROPS = {
             {"pkg": B, "kind": "fuzz", "test": "FuzzVerifC05", "fuzz_seconds": 600},
         ],
     },
+    "C11": {
+        "level": "exploration",
+        "claim": ("Generated path lists (announce/withdraw/End-of-RIB mixes with repeated keys, IPv4 with IPv4 or IPv6 next hop, "
+                  "IPv6 with optional link-local next hop, VPNv4; attribute sets from tiny to exactly around the single-route "
+                  "size limit, several sets forced onto one batching hash, optional bulk of hundreds to tens of thousands of "
+                  "prefixes) x ADD-PATH on/off x extended message on/off are packed by CreateUpdateMsgFromPaths; every message "
+                  "is serialised under the session options, must fit the maximum, is re-parsed and applied to an independent "
+                  "receiver model whose final state must equal applying the changes one at a time; routes that cannot fit must "
+                  "be absent without disturbing others; no panic."),
+        "note": ("The receiver model compares attribute bytes (minus MP_REACH) and next hops per (family, prefix, path-id); "
+                 "packerMP's internal hash-collision branch cannot be steered (DESIGN section 4)."),
+        "technique": "property-based testing (rapid) against an independent receiver model (differential), boundary-biased size generation",
+        "rule": ("non-trivial when the list produces >=2 messages, or contains a repeated key, or an attribute set within 64 "
+                 "octets of the limit; distinct by case hash"),
+        "assumptions": ["without ADD-PATH a prefix has one path identifier", "the receiver starts from an empty table"],
+        "units": [
+            {"pkg": T, "test": "TestVerifC11", "quick": (16, 800), "thorough": (16, 60000)},
+        ],
+    },
 }
